@@ -139,6 +139,13 @@ pub fn lower(items: &[Item]) -> Vec<S> {
                 Item::Decl(v) => out.push(make(name(*v), st(&format!("d{id}")))),
                 Item::Assign(v) => out.push(set(name(*v), st(&format!("w{id}")))),
                 Item::Read(v) => out.push(shout(var(name(*v)))),
+                // every other placeholder site repeats its placeholder within one string
+                Item::Place(v) if id % 2 == 1 => out.push(shout(E::Str(vec![
+                    SP::Lit(format!("p{id}:")),
+                    SP::Var(name(*v).into()),
+                    SP::Lit("+".into()),
+                    SP::Var(name(*v).into()),
+                ]))),
                 Item::Place(v) => out.push(shout(E::Str(vec![SP::Lit(format!("p{id}:")), SP::Var(name(*v).into())]))),
                 Item::CallF => out.push(S::Expr(call("f", vec![]))),
                 Item::CallG => out.push(S::Expr(call("g", vec![st(&format!("arg{id}"))]))),
@@ -187,6 +194,28 @@ pub fn templates() -> Gen<Vec<S>> {
                 shout(call("inn", vec![])),
             ]),
             S::Expr(call("r", vec![num(depth)])),
+        ]);
+    }
+    // a hoisted inner function called before the activation's own `make x` has run, while an
+    // older activation of the same function has its x live: read, assignment, placeholder, push
+    for form in 0..4u8 {
+        let (inner_body, show): (Vec<S>, E) = match form {
+            0 => (vec![S::Ret(Some(var("x")))], call("g", vec![])),
+            1 => (vec![set("x", st("set-by-g")), S::Ret(Some(st("ok")))], call("g", vec![])),
+            2 => (vec![S::Ret(Some(E::Str(vec![SP::Lit("ph:".into()), SP::Var("x".into())])))], call("g", vec![])),
+            _ => (vec![S::Expr(meth(var("x"), "push", vec![st("pushed")])), S::Ret(Some(st("ok")))], call("g", vec![])),
+        };
+        let init = if form == 3 { E::Arr(vec![var("n")]) } else { sadd(st("x-of-"), var("n")) };
+        v.push(vec![
+            func("f", &["n", "early"], vec![
+                S::If(var("early"), vec![shout(show.clone())], None),
+                make("x", init),
+                func("g", &[], inner_body),
+                S::If(bin(Op::Gt, var("n"), num("0")), vec![S::Expr(call("f", vec![bin(Op::Sub, var("n"), num("1")), E::Bool(true)]))], None),
+                shout(call("g", vec![])),
+                shout(var("x")),
+            ]),
+            S::Expr(call("f", vec![num("1"), E::Bool(false)])),
         ]);
     }
     // callee reads/assigns the global, never the caller's same-named local
